@@ -3,12 +3,13 @@
 (* every challenge / response it can assemble, in every order; also the scenario generator. *)
 EXTENDS Handshake, Json
 
-CONSTANTS MaxNonce, MaxLen
+CONSTANTS MaxNonce, MaxLen,
+          Vers, Valids     \* response alphabets explored (subsets of {"ok","unset","incompatible"} and BOOLEAN)
 
 VARIABLES N, nn, known, sigA, accepted, h
 vars == <<N, nn, known, sigA, accepted, h>>
 
-RoleDef == [c \in Conns |-> IF c = 1 THEN "acc" ELSE "ini"]
+RoleDef == [c \in Conns |-> IF c % 2 = 1 THEN "acc" ELSE "ini"]
 Keys == {"A", "B", "M"}
 Nonce(i) == "a" \o ToString(i)
 AttackerNonce == "m1"
@@ -57,7 +58,7 @@ SendResp(c, k, x, valid, ver) ==
 Next ==
     \/ \E c \in Conns : Open(c) \/ Close(c)
     \/ \E c \in Conns, x \in known : SendChal(c, x)
-    \/ \E c \in Conns, k \in Keys, x \in known, valid \in BOOLEAN, ver \in {"ok", "unset", "incompatible"} :
+    \/ \E c \in Conns, k \in Keys, x \in known, valid \in Valids, ver \in Vers :
           SendResp(c, k, x, valid, ver)
 
 Spec == Init /\ [][Next]_vars
